@@ -162,6 +162,21 @@ pub fn explore_scenario_from(
     run: &dyn Fn(&mut Chooser, bool) -> RunObs,
 ) -> DfsStats {
     let mut states: HashSet<u64> = HashSet::new();
+    // an activity that was ended by the point limit (it span inside the engine) is a violation of
+    // whatever is being checked: nothing the engine does may fail to return
+    let run = &|ch: &mut Chooser, log: bool| -> RunObs {
+        crate::world::DIVERGED.store(false, std::sync::atomic::Ordering::SeqCst);
+        let mut o = run(ch, log);
+        if crate::world::DIVERGED.swap(false, std::sync::atomic::Ordering::SeqCst) {
+            o.viols.retain(|(s, _)| s != "panic");
+            o.viols.insert(0, ("diverges/activity".into(), format!("an engine activity passed {} scheduling points without returning (it spins inside one call); ended by the harness", crate::world::point_limit())));
+        } else if ch.horizon_hit && !o.viols.iter().any(|(s, _)| s.starts_with("livelock")) {
+            // every model of every check is finite: an execution that is still producing work at the
+            // horizon is the engine feeding itself
+            o.viols.push(("livelock/horizon".into(), "the execution was still producing engine work at the activity horizon although the model is finite".into()));
+        }
+        o
+    };
     let mut outcomes: BTreeSet<String> = BTreeSet::new();
     let mut seen_sigs: BTreeSet<(String, String)> = BTreeSet::new();
     let mut viols: Vec<Violation> = vec![];
@@ -169,6 +184,12 @@ pub fn explore_scenario_from(
     let mut machinery: Vec<String> = vec![];
     let mut first_states: Option<Vec<u64>> = None;
     let mut sensitive = false;
+    // once a violation that KNOWN_FINDINGS.txt does not list is confirmed the verdict of the check
+    // is settled; the scenario is explored a little further (other signatures) and then left
+    static FINDINGS: std::sync::OnceLock<Vec<Finding>> = std::sync::OnceLock::new();
+    let findings = FINDINGS.get_or_init(load_findings);
+    let mut unlisted_at: Option<u64> = None;
+    let mut execs: u64 = 0;
     let st = dfs_from(
         bound,
         cap,
@@ -177,6 +198,7 @@ pub fn explore_scenario_from(
         spill,
         |ch| run(ch, false),
         |ch, o: RunObs| {
+            execs += 1;
             for s in &o.states {
                 states.insert(*s);
             }
@@ -214,17 +236,21 @@ pub fn explore_scenario_from(
                     } else {
                         json!({"property": property, "signature": sig, "scenario": scenario_id, "detail": o.detail, "schedule": ch.taken, "what": what})
                     };
-                    viols.push(Violation {
+                    let v = Violation {
                         property: property.to_string(),
                         sig: sig.clone(),
                         scenario: scenario_id.to_string(),
                         detail: o.detail.clone(),
                         what: what.clone(),
                         replay,
-                    });
+                    };
+                    if unlisted_at.is_none() && !findings.iter().any(|f| finding_matches(f, &v)) {
+                        unlisted_at = Some(execs);
+                    }
+                    viols.push(v);
                 }
             }
-            true
+            !matches!(unlisted_at, Some(at) if execs >= at + 300)
         },
     );
     if want_sample {
